@@ -1,5 +1,5 @@
 ---- MODULE MC_Health ----
 EXTENDS Health, Json
 Emit == (pc' = "poll" /\ ~hcEdge' /\ hcq' = <<>> /\ conns' = MaxConns /\ pc # "poll") =>
-            PrintT(ToJson([suite |-> "health", pre |-> sched'.pre, during |-> sched'.during]))
+            PrintT(ToJson([suite |-> "health", pre |-> sched'.pre, during |-> sched'.during, kinds |-> kinds']))
 ====
